@@ -88,6 +88,15 @@ func rlweEvalOps() []op {
 	}
 }
 
+// addGaloisKeys puts every Galois key of the environment into ks (a key set that gains its keys after an
+// evaluator was built over it).
+func addGaloisKeys(e *env, ks *rlwe.MemEvaluationKeySet) {
+	for _, g := range e.galEls {
+		gk, _ := e.evk.GetGaloisKey(g)
+		ks.GaloisKeys[g] = gk
+	}
+}
+
 func rlweCases() []copyCase {
 	buildEval := func(e *env, cfg string) interface{} {
 		switch cfg {
@@ -105,12 +114,18 @@ func rlweCases() []copyCase {
 				ks.GaloisKeys[g] = gk
 			}
 			return ev
+		case "latekey-from-empty":
+			// no Galois key at all when the evaluator is created (its index map exists but is empty), all added afterwards
+			ks := rlwe.NewMemEvaluationKeySet(e.evk.RelinearizationKey)
+			ev := rlwe.NewEvaluator(e.p, ks)
+			addGaloisKeys(e, ks)
+			return ev
 		}
 		return rlwe.NewEvaluator(e.p, e.evk)
 	}
 	cases := []copyCase{
 		{name: "rlwe.Evaluator.ShallowCopy", envKind: "rlwe", kind: shallow, concurrent: true,
-			configs: []string{"evk", "nokeys", "latekey"}, build: buildEval,
+			configs: []string{"evk", "nokeys", "latekey", "latekey-from-empty"}, build: buildEval,
 			copy: func(e *env, o interface{}) interface{} { return o.(*rlwe.Evaluator).ShallowCopy() },
 			ops:  rlweEvalOps()},
 		{name: "rlwe.Evaluator.WithKey", envKind: "rlwe", kind: rebind,
